@@ -106,7 +106,7 @@ CHECKS = {
     },
     "C07": {
         "bin": "c06",
-        "quick": cfgs(["rdx"], args=["--c07"]),
+        "quick": cfgs(["rdx", "nostd_rdx"], args=["--c07"]),
         "thorough": cfgs(["rdx", "cmprdxfmt"], args=["--c07"]),
         "rule": "as C06 for the 29 generic radices, plus integers 1..2^12 (2^16 thorough), r^k-1, r^k, r^k+1 below 2^53/2^24, floats just below a power of "
                 "the radix (carry back-trace), negative powers of the radix +-4 ulp; output must be a well-formed numeral of the radix (reference grammar), "
@@ -129,8 +129,8 @@ CHECKS = {
     "C16": {
         "bin": "c16",
         "cross_config": True,
-        "quick": cfgs(["dflt", "cmp", "p2", "rdx", "fmt", "rdxfmt", "cmprdxfmt", "nostd", "nostd_cmp"]),
-        "thorough": cfgs(["dflt", "cmp", "p2", "rdx", "fmt", "rdxfmt", "cmprdx", "cmprdxfmt", "nostd", "nostd_cmp"]),
+        "quick": cfgs(["dflt", "cmp", "p2", "rdx", "fmt", "rdxfmt", "cmprdxfmt", "nostd", "nostd_cmp", "nostd_rdx"]),
+        "thorough": cfgs(["dflt", "cmp", "p2", "rdx", "fmt", "rdxfmt", "cmprdx", "cmprdxfmt", "nostd", "nostd_cmp", "nostd_rdx"]),
         "rule": "one deterministic input list through the default (decimal, STANDARD) API in every build configuration: float parse and parse_partial "
                 "(S over {+,-,0,1,5,9,.,e,E,x,n,i}, ME, MEV, CF, HW, BD, special strings), integer parse and parse_partial for 12 types (S over "
                 "{+,-,0,1,9,a,_,.,0xFF}, boundary numerals with suffixes), integer output (INT values), float output (BD, BIN, SD values, both signs); a "
